@@ -226,8 +226,54 @@ fn decorate(ctx: &mut Ctx, text: &str, two: bool) {
     ctx.nontrivial(text.as_bytes());
 }
 
+/// the same rules observed where a user observes them: `fml parse --format json` on files and stdin.
+/// Small decorated programs, and sources beyond the 8 KiB read buffer (strings and comments full of
+/// multi-byte characters) with 0..4 blanks inserted in front, which must not change the tree.
+fn through_the_command_line(ctx: &mut Ctx) {
+    use super::super::cli;
+    ctx.stage("`fml parse` on files and stdin (processes)");
+    let exe = ctx.exe.clone();
+    let mut texts: Vec<(String, String)> = vec![]; // (reference text, decorated text)
+    let small = ["a + b * c", "if a then if b then 1 else 2", "o.f.g(1)[2] <- x.y(3)", "print(\"λ ~ \\\" \\n\", a | b & c == d)",
+        "let o = object extends p begin let v = 1; function +(x) -> this.v + x end", "while a <= b do begin f(a); a <- a - 1 end"];
+    let ds = decorations();
+    for (i, s) in small.iter().enumerate() {
+        let toks = tokens(s);
+        texts.push((s.to_string(), s.to_string()));
+        for (j, d) in ds.iter().enumerate() {
+            let everywhere: Vec<(usize, &str)> = (0..=toks.len()).map(|b| (b, *d)).collect();
+            texts.push((s.to_string(), joined(&toks, &everywhere)));
+            texts.push((s.to_string(), joined(&toks, &[((i + j) % (toks.len() + 1), *d)])));
+        }
+    }
+    for ch in ["é", "€", "𝒳"] {
+        let mut body = String::new();
+        for i in 0..400 { body.push_str(&format!("print(\"{} ~\\n\", {} + f(x) * {}); /* {} */ // {}\n", ch.repeat(9 + i % 4), i, i % 7, ch.repeat(5), ch.repeat(3))); }
+        body.push_str("done");
+        for pad in 0..4 { texts.push((body.clone(), format!("{}{}", " ".repeat(pad), body))); }
+    }
+    for (reference, decorated) in texts {
+        if ctx.take().is_none() { continue }
+        let ast = match pipeline::parse(&reference) { Ok(a) => a, Err(_) => continue };
+        let f = cli::write_file(&ctx.scratch, "p.fml", decorated.as_bytes());
+        let a = cli::simple(&exe, &["parse", f.to_str().unwrap(), "--format", "json"]);
+        let b = cli::run(&exe, &["parse", "--format", "json"], Some(decorated.as_bytes()), None, &[], std::time::Duration::from_secs(30));
+        ctx.count("programs", 1); ctx.count("cli_runs", 2);
+        ctx.nontrivial(decorated.as_bytes());
+        for (how, r) in [("file", &a), ("stdin", &b)] {
+            let got = if r.ok() { pipeline::ast_from_text(&r.out(), pipeline::AstFormat::Json).ok() } else { None };
+            if got.as_ref().map_or(true, |g| !pipeline::ast_eq(&ast, g)) {
+                let short = |s: &str| if s.len() > 300 { format!("{}... ({} bytes)", s.chars().take(150).collect::<String>(), s.len()) } else { s.to_string() };
+                ctx.violation("layout/cli-parse-differs", "`fml parse --format json` yields a different tree than the text denotes",
+                    json!({"text": short(&reference), "decorated": short(&decorated), "input": how, "exit": r.code, "stderr": r.err().chars().take(200).collect::<String>(), "cli": "fml parse --format json <file>"}));
+            }
+        }
+    }
+}
+
 pub fn run(ctx: &mut Ctx) {
     operators(ctx);
+    through_the_command_line(ctx);
     let (n_rt, n_dec) = if ctx.quick() { (4, 3) } else { (5, 4) };
     let mut g = ast_grammar();
     g.prepare(n_rt);
